@@ -288,7 +288,16 @@ func c15Check(c *val.Case, pt c15Point, r *c15Result) []string {
 	case r.Err == nil:
 		// tolerated only when the cancellation came during or after the very last evaluation, i.e.
 		// nothing was left to stop: no further event and no state change
-		if len(later) > 0 || pt.Kind == "pre" || pt.Kind == "deadline" {
+		// (and the run ended through Complete(): the engine leaves its loop right after the completing rule)
+		completed := false
+		if r.InFiringOf != "" {
+			for _, x := range c.Rules {
+				if x.Name == r.InFiringOf && strings.Contains(gast.RuleString(x), "Complete()") {
+					completed = true
+				}
+			}
+		}
+		if len(later) > 0 || pt.Kind == "pre" || pt.Kind == "deadline" || (r.InFiringOf != "" && !completed) {
 			v = append(v, fmt.Sprintf("the context was cancelled (%s %d) but Execute returned nil after %d further event(s)", pt.Kind, pt.K, len(later)))
 		}
 	case !errors.Is(r.Err, r.CtxErr):
@@ -359,6 +368,15 @@ func TestC15(t *testing.T) {
 	exhaustiveAll := true
 	check(t, 0, budget(1000, 9000), func(rt *rapid.T) {
 		c, rs := genRSCase(rt, cfg)
+		// a quarter of the rule sets are of the run-once kind: every rule retracts itself, so that after the last
+		// firing no active rule is left
+		if rapid.IntRange(0, 3).Draw(rt, "run_once_rules") == 0 {
+			for _, r := range c.Rules {
+				r.Then = append(r.Then, &gast.CallStmt{X: &gast.Call{Name: "Retract", Args: []gast.Expr{gast.S(r.Name)}}})
+			}
+			c14Rerender(c)
+			rs.Feat["every_rule_retracts_itself"]++
+		}
 		c.ErrOnFail = rapid.IntRange(0, 3).Draw(rt, "err_on_fail") == 0
 		prep, err := val.Prepare(c)
 		if err != nil {
